@@ -92,7 +92,8 @@ def one_input(job):
     conv.step(('tick', 3))
     t = conv.transcript()
     case = {'input': list(raw), 'cgot': list(t['clients'][0]['got']), 'ceof': t['clients'][0]['eof'],
-            'nconnect': len(t['connects']), 'loopdied': not t['alive'], 'tunnel': raw.startswith(b'CONNECT ')}
+            'nconnect': len(t['connects']), 'loopdied': not t['alive'],
+            'tunnel': raw.startswith(b'CONNECT ') or ('--enable-proxy-protocol' in role_args and raw.partition(b'\n')[2].startswith(b'CONNECT '))}
     desc = {'kind': kind, 'role': role + (', threaded mode' if threaded else ''), 'segments': style, 'loop_error': t['loop_error']}
     return case, desc
 
@@ -107,6 +108,14 @@ def run_inputs(chk, quick):
                 continue
             style = rnd.choice(['one', 'two', 'few', 'crlf'])
             jobs.append((raw, kind, role_args, role, style, len(jobs) % 5 == 4, rnd.randrange(1 << 30)))
+        if rnd.random() < 0.3:
+            # the same handler behind --enable-proxy-protocol: a PROXY protocol line (valid, damaged, over-long, version 2, missing) first
+            pre = rnd.choice([b'PROXY TCP4 192.168.0.1 192.168.0.11 56324 443\r\n', b'PROXY UNKNOWN\r\n', b'PROXY TCP6 ::1 ::2 1 2\r\n', b'',
+                              b'PROXY FOO 1 2 3 4\r\n', b'PROXY TCP4 a b c d\r\n', b'PROXY TCP4 ' + b'1' * 60 + b' 2 3 4\r\n', b'PROXY TCP4 1.2.3.4\r\n',
+                              b'\r\n\r\n\x00\r\nQUIT\n\x21\x11\x00\x0c' + bytes(12), b'PROXY TCP4 1.2.3.4 5.6.7.8 99999 -1\r\n', b'proxy tcp4 1.2.3.4 5.6.7.8 1 2\r\n',
+                              b'PROXY TCP4 1.2.3.4 5.6.7.8 1 2\n', b'PROXY  TCP4  1.2.3.4 5.6.7.8 1 2\r\n'])
+            jobs.append((pre + raw, kind + ' behind a PROXY protocol line', ['--enable-proxy-protocol'], 'proxy, --enable-proxy-protocol',
+                         rnd.choice(['one', 'two', 'few', 'crlf']), len(jobs) % 5 == 4, rnd.randrange(1 << 30)))
     cases, descs = [], {}
     hung = 0
     for job, res in zip(jobs, pmap(one_input, jobs, watchdog=120)):
